@@ -226,6 +226,14 @@ def prove(run, pid, extra_targets=()):
         run.obligation(f"Props/{pid}.v:{n}", all_ok)
     run.cov["print_assumptions_closed"] = closed
     run.cov["axioms_reported"] = axioms
+    if all_ok and run.tier == "thorough":
+        # independent re-check of the compiled closure of the property file
+        rc2, out2, err2 = sh(["coqchk", "-silent", "-o", "-Q", ".", "MlsV", f"MlsV.Props.{pid}"], cwd=COQ, timeout=1800)
+        txt = out2 + err2
+        chk_ok = rc2 == 0 and re.search(r"Axioms:\s*<none>", txt) is not None and "type-in-type: <none>" in txt
+        run.obligation(f"coqchk -o MlsV.Props.{pid}: re-checked, Axioms <none>", chk_ok)
+        run.cov["coqchk"] = "Axioms: <none>" if chk_ok else txt[-600:]
+        all_ok = all_ok and chk_ok
     if bad:
         run.notes.append("forbidden declarations: " + "; ".join(bad))
     if shape:
